@@ -404,7 +404,9 @@ func judgeRoundsCase(c roundsCase, rec *hx.Rec) string {
 		if c.Rounds >= 255 {
 			cl = append(cl, "rounds_ge_255")
 		}
-		rec.Case(c.Rounds >= 2 && c.Run > 0, hx.HashJSON(c), func() any { return map[string]any{"cfg": c.Cfg, "rounds": c.Rounds, "run": c.Run, "warriors": len(c.Ws)} }, cl...)
+		rec.Case(c.Rounds >= 2 && c.Run > 0, hx.HashJSON(c), func() any {
+			return map[string]any{"cfg": c.Cfg, "rounds": c.Rounds, "run": c.Run, "warriors": len(c.Ws)}
+		}, cl...)
 	}
 	return ""
 }
@@ -413,6 +415,6 @@ func TestC15_Rounds(t *testing.T) {
 	hx.Run(t, hx.Prop[roundsCase]{
 		ID: "C15", Sub: "rounds", Checks: hx.Scale(2000, 300000),
 		Rule: "one reporting simulator with one StateRecorder is used for 1..12 (one in eight: 255..1030) rounds: reset, spawn 1..3 warriors at rotating offsets, run 0..6 cycles; after every reset every address must read (CoreEmpty,-1) and after every spawn exactly the loaded cells read (CoreWritten, warrior). Non-trivial: at least two rounds with cycles in between; distinct by case hash.",
-		Gen: genRoundsCase, Judge: judgeRoundsCase,
+		Gen:  genRoundsCase, Judge: judgeRoundsCase,
 	})
 }
